@@ -500,6 +500,8 @@ Dev_InvariantOverlap(V, c, o) ==
 
 \* 7. a length comparison with the literal on the left (`3 < len(x)`) keeps its operator although the operands are swapped
 \*    (name_check_visitor.py:3575): it narrows as `len(x) < 3`, so both branches lose the sequences they really get
+\*    REPAIRED in /repo by b856ea6: every real cfg has "len_reversed_mirrored" in NFixed, the class is empty; the old behaviour
+\*    is kept by Narrowing.sens_lenr.cfg (NFixed without it), which TLC must reject
 Dev_ReversedLenComparison(V, c, o) ==
     /\ "len_reversed_mirrored" \notin NFixed /\ HasLen(o)
     /\ \E op \in {"<", "<=", ">", ">="} : CondHasLenR(c, op)
